@@ -903,7 +903,7 @@ is_convertible_to(const CPPType *other) const {
   Derivation::const_iterator di;
   for (di = _derivation.begin(); di != _derivation.end(); ++di) {
     CPPStructType *base = (*di)._base->as_struct_type();
-    if (base != nullptr && (*di)._vis <= V_public && !base->is_convertible_to(other)) {
+    if (base != nullptr && (*di)._vis <= V_public && base->is_convertible_to(other)) {
       return true;
     }
   }
